@@ -1685,6 +1685,13 @@ enum COp {
     Head,
     /// multipart upload of two parts + complete
     Mp,
+    /// conditional reads holding the token of the initial commit: the condition has to be
+    /// evaluated against the commit that is actually served, also when the read is overtaken
+    GetIfMatchT0,
+    HeadIfMatchT0,
+    GetIfNoneMatchT0,
+    /// ranged read with an if_match list that contains the initial token
+    RangeIfMatchT0,
 }
 
 struct Scenario {
@@ -1716,6 +1723,15 @@ const SCENARIOS: &[Scenario] = &[
     Scenario { name: "delete/put/get", ops: &[COp::Delete, COp::Put, COp::Get], init_present: true },
     Scenario { name: "copy/update/put", ops: &[COp::CopyIn, COp::UpdT0, COp::Put], init_present: true },
     Scenario { name: "create/create/head", ops: &[COp::Create, COp::Create, COp::Head], init_present: false },
+    Scenario { name: "get_if_match/put", ops: &[COp::GetIfMatchT0, COp::Put], init_present: true },
+    Scenario { name: "get_if_match/put/put", ops: &[COp::GetIfMatchT0, COp::Put, COp::Put], init_present: true },
+    Scenario { name: "head_if_match/put", ops: &[COp::HeadIfMatchT0, COp::Put], init_present: true },
+    Scenario { name: "range_if_match/put", ops: &[COp::RangeIfMatchT0, COp::Put], init_present: true },
+    Scenario { name: "get_if_none_match/put", ops: &[COp::GetIfNoneMatchT0, COp::Put], init_present: true },
+    Scenario { name: "get_if_none_match/put/put", ops: &[COp::GetIfNoneMatchT0, COp::Put, COp::Put], init_present: true },
+    Scenario { name: "get_if_match/copy", ops: &[COp::GetIfMatchT0, COp::CopyIn], init_present: true },
+    Scenario { name: "get_if_match/multipart", ops: &[COp::GetIfMatchT0, COp::Mp], init_present: true },
+    Scenario { name: "get_if_match/delete/put", ops: &[COp::GetIfMatchT0, COp::Delete, COp::Put], init_present: true },
 ];
 
 const CONC_CFGS: [Cfg; 3] = [Cfg::Meta, Cfg::Enc(4), Cfg::Enc(16)];
@@ -1779,6 +1795,34 @@ async fn run_cop(w: Arc<dyn ObjectStore>, op: COp, i: usize, t0: Option<String>)
             }
         },
         COp::Head => w.head(&k).await.map(|m| CRes::Meta { size: m.size, tok: m.e_tag }).unwrap_or_else(e),
+        COp::GetIfMatchT0 | COp::GetIfNoneMatchT0 | COp::HeadIfMatchT0 | COp::RangeIfMatchT0 => {
+            let t = t0.unwrap_or_else(|| "nope".into());
+            let mut o = GetOptions::default();
+            match op {
+                COp::GetIfNoneMatchT0 => o.if_none_match = Some(t),
+                COp::RangeIfMatchT0 => {
+                    o.if_match = Some(format!("\"zzz\", {t}"));
+                    o.range = Some(object_store::GetRange::Bounded(1..4));
+                }
+                _ => o.if_match = Some(t),
+            }
+            if op == COp::HeadIfMatchT0 {
+                o.head = true;
+            }
+            match w.get_opts(&k, o).await {
+                Err(x) => e(x),
+                Ok(res) => {
+                    let (size, tok) = (res.meta.size, res.meta.e_tag.clone());
+                    if op == COp::HeadIfMatchT0 {
+                        return CRes::Meta { size, tok };
+                    }
+                    match res.bytes().await {
+                        Ok(b) => CRes::Read { bytes: b.to_vec(), size, tok },
+                        Err(x) => CRes::Err(EK::Other, format!("stream: {x}")),
+                    }
+                }
+            }
+        }
         COp::Mp => {
             let mut up = match w.put_multipart(&k).await {
                 Ok(u) => u,
@@ -1846,6 +1890,29 @@ fn lin_apply(s: &MS, op: COp, i: usize, res: &CRes, t0: &Option<String>) -> Opti
             CRes::Meta { size, tok } => read_matches(s, None, *size, tok).then(|| s.clone()),
             r => (s.is_none() && failed(r, EK::NotFound)).then(|| s.clone()),
         },
+        // the condition is judged against the state the read is linearized at: served only while
+        // the key still holds the initial commit, refused (Precondition) once it holds another one
+        COp::GetIfMatchT0 | COp::HeadIfMatchT0 | COp::RangeIfMatchT0 => {
+            let holds = matches!(s, Some((Val::Init, _))) && t0.is_some();
+            match res {
+                CRes::Read { bytes, size, tok } if op == COp::GetIfMatchT0 => (holds && read_matches(s, Some(bytes), *size, tok)).then(|| s.clone()),
+                CRes::Read { bytes, size, tok } if op == COp::RangeIfMatchT0 => {
+                    let full = cval(&Val::Init);
+                    (holds && *size == full.len() as u64 && tok == t0 && bytes[..] == full[1..4]).then(|| s.clone())
+                }
+                CRes::Meta { size, tok } if op == COp::HeadIfMatchT0 => (holds && read_matches(s, None, *size, tok)).then(|| s.clone()),
+                r if s.is_none() => failed(r, EK::NotFound).then(|| s.clone()),
+                r => (!holds && failed(r, EK::Precondition)).then(|| s.clone()),
+            }
+        }
+        COp::GetIfNoneMatchT0 => {
+            let is_init = matches!(s, Some((Val::Init, _))) && t0.is_some();
+            match res {
+                CRes::Read { bytes, size, tok } => (!is_init && read_matches(s, Some(bytes), *size, tok)).then(|| s.clone()),
+                r if s.is_none() => failed(r, EK::NotFound).then(|| s.clone()),
+                r => (is_init && failed(r, EK::NotModified)).then(|| s.clone()),
+            }
+        }
     }
 }
 
